@@ -1,7 +1,7 @@
 #!/venv/bin/python
 """Run every seeded change in /verif/seeded against the check of its property (scratch worktree, FSIC_REPO) and
 write seeded/RESULTS.json + update each meta.json with what was run. usage: run_seeds.py [Cxx ...] [--only k1,k2]"""
-import json, os, re, subprocess, sys
+import fcntl, json, os, re, subprocess, sys
 V = '/verif'
 args = sys.argv[1:]
 suffix = None          # e.g.  --only 9,10  : only the seeds Cxx_9 and Cxx_10
@@ -10,7 +10,21 @@ if '--only' in args:
     suffix = set(args[i + 1].split(','))
     args = args[:i] + args[i + 2:]
 only = set(args)
-res = json.load(open(f'{V}/seeded/RESULTS.json')) if os.path.exists(f'{V}/seeded/RESULTS.json') else {}
+res = {}
+
+
+def record(key, value):
+    """Merge one result into seeded/RESULTS.json under a lock (several run_seeds.py processes may run side by side, one
+    per group of properties)."""
+    with open(f'{V}/seeded/.results.lock', 'w') as lk:
+        fcntl.flock(lk, fcntl.LOCK_EX)
+        path = f'{V}/seeded/RESULTS.json'
+        allres = json.load(open(path)) if os.path.exists(path) else {}
+        allres[key] = value
+        json.dump(allres, open(path + '.tmp', 'w'), indent=1)
+        os.replace(path + '.tmp', path)
+
+
 for s in sorted(os.listdir(f'{V}/seeded')):
     d = f'{V}/seeded/{s}'
     if not os.path.isdir(d):
@@ -31,10 +45,10 @@ for s in sorted(os.listdir(f'{V}/seeded')):
               'demo_exit_with_patch': int(demo_patch.group(1)) if demo_patch else None,
               'demo_exit_on_head': int(demo_head.group(1)) if demo_head else None,
               'check_detects': viol, 'no_failing_input_found': 'no-failing-input-found' in out, 'check_summary': summ}
+    record(s, res[s])
     mp = f'{d}/meta.json'
     meta = json.load(open(mp)) if os.path.exists(mp) else {}
     meta['verified_here'] = {'command': f'harness/seedtest.sh seeded/{s} {prop}  (scratch worktree of /repo HEAD, FSIC_REPO)',
                              **{k: v for k, v in res[s].items() if k != 'property'}}
     json.dump(meta, open(mp, 'w'), indent=1)
     print(s, 'DETECTED' if viol else 'MISSED', '| demo', res[s]['demo_exit_with_patch'], res[s]['demo_exit_on_head'], '|', summ[-90:])
-json.dump(res, open(f'{V}/seeded/RESULTS.json', 'w'), indent=1)
